@@ -708,23 +708,36 @@ def g_swt_module(JMAX, mode, waveform='wavelet'):
             from .modules_dwt import loop_state
             c = ctx()
             tv, lv = loop_state(node, env, 'll', 'coeffs')
-            if tv is None or lv is None:
-                raise Unsupported('level loop without a carried tensor and an accumulating list')
-            side.rec.append(('init', env[tv], env[lv], rng))
-            T0 = env[tv]
+            if lv is None:
+                raise Unsupported('level loop without an accumulating list')
+            L0 = env[lv]
+            if not isinstance(L0, list) or not is_conc(simp(rng.lo)):
+                raise Unsupported('level loop over a list / range the rule does not know')
+            k0 = len(L0)                               # levels computed before the loop (0 in the shipped code)
+            side.rec.append(('init', env.get(tv) if tv else None, list(L0), rng, k0))
+            T0 = L0[0] if k0 else env[tv]
             saved = dict(env)
-            for jc in range(JMAX):
+            for k in range(max(0, JMAX - k0)):
+                idx = k0 + k                           # number of levels already in the list = index of the level computed now
                 e2 = dict(saved)
                 dims = _fresh_dims('n', 2)
-                A = CD.data_tensor('A', tuple(T0.shape[:2]) + tuple(dims))
-                pre = SList(jc, 'Y')
-                e2[tv] = A
+                pre = SList(idx, 'Y')
+                if tv is not None:
+                    A = CD.data_tensor('A', tuple(T0.shape[:2]) + tuple(dims))
+                    e2[tv] = A
+                    pre.last = None
+                else:
+                    # the body takes the running approximation from the last list element: Y_prev[:, :, 0]
+                    Yp = CD.data_tensor('Yp', tuple(T0.shape[:2]) + (4,) + tuple(dims))
+                    A = tget(Yp, (slice(None), slice(None), 0))
+                    pre.last = Yp
                 e2[lv] = pre
-                it.assign(node.target, jc, e2)
+                it.assign(node.target, simp(I(rng.lo) + k), e2)
                 it.run(node.body, e2)
-                side.rec.append(('step', jc, A, e2[tv], e2[lv], pre))
+                side.rec.append(('step', idx, A, e2[tv] if tv is not None else None, e2[lv], pre))
             env[lv] = SList(Jv, 'Y')
-            env[tv] = None
+            if tv is not None:
+                env[tv] = None
             side.exit = env[lv]
         return rule
 
@@ -756,10 +769,22 @@ def g_swt_module(JMAX, mode, waveform='wavelet'):
         out, x, wc, wr, side = res[1]
         for rec in side.rec:
             if rec[0] == 'init':
-                _, T0, L0, rng = rec
-                ok = same_tensor(T0, x) and isinstance(L0, list) and L0 == []
-                obs.append(Ob(pid + '/INV-init', 'INV-init', 'proved' if ok else 'refuted', 'structural', 0))
-                obs.append(solve.prove(pid + '/INV-init[range is 0..J)', 'INV-init', c.pc, z3.And(I(rng.lo) == 0, I(rng.hi) == Jv), mv))
+                _, T0, L0, rng, k0 = rec
+                filt = ((wc.a['dec_lo'], wc.a['dec_hi']), (wr.a['dec_lo'], wr.a['dec_hi']))
+                if k0 == 0:
+                    ok = same_tensor(T0, x) and L0 == []
+                    obs.append(Ob(pid + '/INV-init', 'INV-init', 'proved' if ok else 'refuted', 'structural', 0))
+                else:
+                    # levels computed before the loop: level i+1 is one swt2 level (dilation 2^i) of the approximation of level i
+                    approx = x
+                    for i_, Y_ in enumerate(L0):
+                        want0 = CD.spec_swt_level_2d(approx, filt[0], filt[1], 2 ** i_)
+                        obs += verify.value_equal('%s/INV-init[level %d computed before the loop]' % (pid, i_ + 1), 'INV-init', Y_, want0, c.pc, mv)
+                        approx = tget(want0, (slice(None), slice(None), 0))
+                    if T0 is not None:
+                        obs += verify.value_equal(pid + '/INV-init[running approximation]', 'INV-init', T0, approx, c.pc, mv)
+                obs.append(solve.prove(pid + '/INV-init[the loop index runs over the remaining levels %d..J)' % k0, 'INV-init', c.pc,
+                                       z3.And(I(rng.lo) == k0, I(rng.hi) == Jv), mv))
             else:
                 _, jc, A, newT, lst, pre = rec
                 want = CD.spec_swt_level_2d(A, (wc.a['dec_lo'], wc.a['dec_hi']), (wr.a['dec_lo'], wr.a['dec_hi']), 2 ** jc)
@@ -767,8 +792,9 @@ def g_swt_module(JMAX, mode, waveform='wavelet'):
                 obs.append(Ob('%s/INV-step[j=%d]/one-level-appended' % (pid, jc), 'INV-step', 'proved' if ok else 'refuted', 'structural', 0))
                 if ok:
                     obs += verify.value_equal('%s/INV-step[j=%d]/level' % (pid, jc), 'INV-step', lst.tail[0], want, c.pc, mv)
-                    obs += verify.value_equal('%s/INV-step[j=%d]/next-approximation' % (pid, jc), 'INV-step', newT,
-                                              tget(want, (slice(None), slice(None), 0)), c.pc, mv)
+                    if newT is not None:
+                        obs += verify.value_equal('%s/INV-step[j=%d]/next-approximation' % (pid, jc), 'INV-step', newT,
+                                                  tget(want, (slice(None), slice(None), 0)), c.pc, mv)
         ok = out is side.exit and not out.tail
         obs.append(Ob(pid + '/POST[returns [Y_1..Y_J]]', 'POST', 'proved' if ok else 'refuted', 'structural', 0))
         obs += solve.safety_obligations(pid, c, mv)
